@@ -15,6 +15,7 @@ PROP = {
              "non-trivial when the pattern contains a parameter, a wildcard or a metacharacter and the engine matches it; "
              "distinct = distinct canonical JSON of (kind, entry, request)"),
     "assumptions": [
+        "reload units (TestProxyMapOverReloads, TestProxyMapOverPolicyReloads): the in-process proxy keeps the managed-endpoint map as HAProxy's configuration does (PUT adds the key, DELETE removes it, manage_all / unmanage_global / unmanage_all), may answer one admin call of a reload with 503, and the deferred un-registration (30 s on the process clock) is driven by the virtual clock and awaited through the goroutine dump; histories of 2-4 reloads over a pool of 2-3 URL patterns; a refused reload is not judged (which configuration then runs is C08's subject)",
         "HAProxy's regex engine (map_reg: unanchored search, case-sensitive) is approximated by Go regexp (RE2); an expression Go cannot compile counts as matching nothing",
         "the per-filter loop of HandlingDataManager.buildHAProxyFlowsEndpointsRequest (unexported; one HaproxyEndpointFormat per GetSupportedMethods(), manage-all when IsAnyURLAccepted()) is restated in the harness around the real translation and the real Filter methods; policies use the exported BuildHAProxyEndpointsRequest",
         "only the required direction is checked (engine matches => registered); a registration that covers more than the engine matches is accepted",
@@ -31,6 +32,8 @@ PROP = {
         {"pkg": "c14", "test": "TestWitnessParameterName", "kind": "plain"},
         {"pkg": "c14", "test": "TestWitnessTrailingSlash", "kind": "plain"},
         {"pkg": "c14", "test": "TestRegisteredByRunningGateway", "quick": 250, "thorough": 3000, "shards": 1},
+        {"pkg": "c14", "test": "TestProxyMapOverReloads", "quick": 150, "thorough": 2000, "shards": 1},
+        {"pkg": "c14", "test": "TestProxyMapOverPolicyReloads", "quick": 300, "thorough": 4000, "shards": 1},
     ],
     "technique": ("property-based differential testing (rapid): cross-validation of two independent translations of one configured URL - "
                   "the engine's tries and the regular expression registered with the proxy - plus a literal-character metamorphic probe; "
